@@ -12,7 +12,7 @@ package main
 //	scan <n> <ext active idx,..|-> <chg active idx,..|->   -> ok new=... e=... last=... [c=...]
 //	reload | relock                        -> ok e=... last=... [c=...]
 //	verify                                 -> ok consistent | bad <i>
-//	addkeys <k>  (collection)              -> ok new=.. e=..
+//	addkeys <k> | addkeys k:<i,j,..>  (collection: the next k fresh keys | the keys with these numbers, held ones included)  -> ok new=.. want=.. e=..
 //
 // addresses and seeds are abbreviated to 8 characters.
 
@@ -417,12 +417,27 @@ func c17Exec(op string) string {
 		cur.w = w
 		return "ok " + cur.view()
 	case "addkeys":
+		// `addkeys <n>`: the next n fresh keys; `addkeys k:<i,j,..>`: the keys with these numbers, in this order
+		// (numbers below the count handed out so far are keys the wallet already holds, a number may repeat)
 		var keys []cipher.SecKey
-		for i := 0; i < int(PU64(f[1])); i++ {
-			_, s, err := cipher.GenerateDeterministicKeyPair(append(append([]byte{}, cur.seed...), byte(cur.nkey)))
+		keyNo := func(i int) cipher.SecKey {
+			_, s, err := cipher.GenerateDeterministicKeyPair(append(append([]byte{}, cur.seed...), byte(i)))
 			must(err)
-			cur.nkey++
-			keys = append(keys, s)
+			return s
+		}
+		if strings.HasPrefix(f[1], "k:") {
+			for _, x := range strings.Split(f[1][2:], ",") {
+				i := int(PU64(x))
+				if i >= cur.nkey {
+					cur.nkey = i + 1
+				}
+				keys = append(keys, keyNo(i))
+			}
+		} else {
+			for i := 0; i < int(PU64(f[1])); i++ {
+				keys = append(keys, keyNo(cur.nkey))
+				cur.nkey++
+			}
 		}
 		as, err := cur.w.GenerateAddresses(wallet.OptionCollectionPrivateKeys(keys))
 		if err != nil {
@@ -535,16 +550,43 @@ func c17Gen(r *Rng, tier string, emit func(string)) {
 		}
 		emit(fmt.Sprintf("reset %s %s %d", typ, seedField, M))
 		if typ == "collection" {
-			for i := 0; i < 2+r.Intn(4); i++ {
-				switch r.Intn(4) {
+			nk := 0 // keys handed out so far: numbers below nk are held by the wallet
+			for i := 0; i < 3+r.Intn(5); i++ {
+				switch r.Intn(6) {
 				case 0:
 					emit("reload")
 				case 1:
 					emit("relock")
+				case 2:
+					n := 1 + r.Intn(3)
+					emit(fmt.Sprintf("addkeys %d", n))
+					nk += n
 				default:
-					emit(fmt.Sprintf("addkeys %d", 1+r.Intn(3)))
+					// a batch mixing keys the wallet holds and new ones, in every order (held first, held in the
+					// middle, held last, repeated within the batch)
+					var ks []string
+					m := 2 + r.Intn(4)
+					next := nk
+					for j := 0; j < m; j++ {
+						if nk > 0 && r.Chance(40) {
+							ks = append(ks, fmt.Sprint(r.Intn(nk)))
+						} else if j > 0 && r.Chance(10) {
+							ks = append(ks, ks[r.Intn(len(ks))])
+						} else {
+							ks = append(ks, fmt.Sprint(next))
+							next++
+						}
+					}
+					if nk > 0 && r.Chance(40) {
+						ks[0] = fmt.Sprint(r.Intn(nk)) // a held key BEFORE the new ones
+					}
+					emit("addkeys k:" + strings.Join(ks, ","))
+					nk = next
+					emit("verify")
 				}
 			}
+			emit("verify")
+			emit("relock")
 			emit("verify")
 			continue
 		}
